@@ -107,6 +107,8 @@ func idsFor(P int) []uuid.UUID {
 			ev.Tool("idsFor(%d): partition %d not covered", P, p)
 		}
 	}
+	// boundary ids are ids like any other: the all-zero and the all-ones UUID
+	out = append(out, uuid.Nil, uuid.UUID{0xff, 0xff, 0xff, 0xff, 0xff, 0xff, 0xff, 0xff, 0xff, 0xff, 0xff, 0xff, 0xff, 0xff, 0xff, 0xff})
 	return out
 }
 
@@ -249,6 +251,41 @@ func (y *sys) write(path string, e int, id uuid.UUID, vec []float32) (string, st
 	return "", ""
 }
 
+// writeBatch sends all ids in ONE batch through entry node e; returns the per-id errors.
+func (y *sys) writeBatch(path string, e int, ids []uuid.UUID, vec []float32) (map[uuid.UUID]string, string) {
+	ds := y.nodes[e].Dataset(y.meta)
+	var items []*pb.BatchItem
+	for _, id := range ids {
+		items = append(items, &pb.BatchItem{Id: id.Bytes(), Value: vec, Metadata: map[string]string{"k": path}})
+	}
+	var err error
+	var berrs map[uuid.UUID]error
+	y.calls++
+	if te := y.runThread(fmt.Sprintf("n%d/call%d", e+1, y.calls), func() {
+		ctx := context.Background()
+		switch path {
+		case "BatchInsert":
+			berrs, err = ds.BatchInsert(ctx, items)
+		case "BatchUpdate":
+			berrs, err = ds.BatchUpdate(ctx, items)
+		case "BatchRemove":
+			berrs, err = ds.BatchRemove(ctx, items)
+		}
+	}); te != "" {
+		return nil, te
+	}
+	out := map[uuid.UUID]string{}
+	if err != nil {
+		out[uuid.Nil] = "call failed: " + err.Error()
+	}
+	for id, e2 := range berrs {
+		if e2 != nil {
+			out[id] = e2.Error()
+		}
+	}
+	return out, ""
+}
+
 func systemCase(run *ev.Run, c sysCase) (calls int) {
 	y, e := newSys(c)
 	defer y.close()
@@ -305,6 +342,30 @@ func systemCase(run *ev.Run, c sysCase) (calls int) {
 			}
 			if !step(rem, e0, id, nil, index.ItemNotFoundError.Error(), false) {
 				return y.calls
+			}
+		}
+	}
+	// one batch spanning every partition (local and remote owners at once), through every entry node: each item
+	// must land at exactly its owner's replicas, be updated there and disappear from there
+	for e0 := 0; e0 < n; e0++ {
+		for i, path := range []string{"BatchInsert", "BatchUpdate", "BatchRemove"} {
+			entry := (e0 + i) % n
+			hist = append(hist, fmt.Sprintf("%s(all %d ids in one batch) via n%d", path, len(ids), entry+1))
+			errs, te := y.writeBatch(path, entry, ids, []float32{float32(i + 1), 2})
+			if te != "" {
+				bad("write-path-wedged-or-panicked", fmt.Sprintf("%s: %s", hist[len(hist)-1], te), hist)
+				return y.calls
+			}
+			if len(errs) != 0 {
+				bad("whole-batch-reports-errors:"+path, fmt.Sprintf("%s on a healthy cluster returned %v", hist[len(hist)-1], errs), hist)
+				return y.calls
+			}
+			for _, id := range ids {
+				have, want := fmt.Sprint(y.holders(id)), fmt.Sprint(y.expectHolders(id, path != "BatchRemove"))
+				if have != want {
+					bad("item-stored-outside-owner-replicas:whole-"+path, fmt.Sprintf("after %s id %x (owner partition %d) is held by %s, owner replicas are %s", hist[len(hist)-1], id[:3], utils.UuidMod(id, uint64(P)), have, want), hist)
+					return y.calls
+				}
 			}
 		}
 	}
